@@ -71,6 +71,10 @@ func (fc *FuncCtx) load(fr *Frame, st *State, lv *LVal, pos token.Pos) Val {
 			fc.note("table " + tb.Name + " read as an immutable constant (checked syntactically: no writer, the slice does not escape)")
 			return Val{T: tb.valTerm(lv.Idx)}
 		}
+		if t := fc.p.tableElem(lv.Slice, lv.Idx); t != nil {
+			fc.note("one of several tables (merged result of an inlined callee) read as immutable constants")
+			return Val{T: t}
+		}
 		v := At(Select(st.H(fc.p, lv.Heap), SBase(lv.Slice)), SOff(lv.Slice), lv.Idx)
 		st.assume(typeInv(lv.Typ, v, st.alloc))
 		return Val{T: v}
